@@ -27,6 +27,7 @@ type HarnessDef struct {
 	Thorough json.RawMessage `json:"thorough"`
 	Twin     json.RawMessage `json:"twin"` // overrides for the vacuity twin (must be violated)
 	Disabled bool            `json:"disabled"`
+	OnlyTier string          `json:"only_tier"` // "thorough": the harness is part of the thorough tier only
 	Claims   string          `json:"claims"`
 }
 
@@ -371,7 +372,7 @@ func cmdCheck(args []string) int {
 	var defs []*HarnessDef
 	for i := range cf.Harnesses {
 		h := &cf.Harnesses[i]
-		if h.Prop != *prop || h.Disabled {
+		if h.Prop != *prop || h.Disabled || (h.OnlyTier != "" && h.OnlyTier != *tier) {
 			continue
 		}
 		if *only != "" && !strings.Contains(h.Name, *only) {
